@@ -462,4 +462,86 @@ def capDist [Min R] (abs : K → R) (n : Nat) (w : Nat → R) (cap : R) (x y : N
 
 end custom
 
+/-! ### which NumPy / BLAS routine computes the unweighted sums (`npy_tensors.py`)
+
+The decision trees of `_inner_default` and `_norm_default` are DATA extracted from the source
+(`Gen/WeightingDispatch.lean`, translator `tools/extract/weighting_dispatch.py`); here: the
+grammar of the trees, their evaluation, and what each leaf routine computes. -/
+section dispatch
+
+/-- atoms the code branches on -/
+inductive Cond where
+  /-- `is_real_dtype(x1.dtype)` -/
+  | isReal
+  /-- `x1.size > k` -/
+  | sizeGt (k : Nat)
+  /-- `_blas_is_applicable(x.data)` -/
+  | blasApplicable
+
+/-- facts about the arguments that decide the branch -/
+structure Facts where
+  isReal : Bool
+  size : Nat
+  blas : Bool
+
+def Cond.eval (f : Facts) : Cond → Bool
+  | .isReal => f.isReal
+  | .sizeGt k => decide (k < f.size)
+  | .blasApplicable => f.blas
+
+inductive Tree (L : Type) where
+  | leaf (l : L)
+  | ite (c : Cond) (t e : Tree L)
+
+def Tree.select {L : Type} (f : Facts) : Tree L → L
+  | .leaf l => l
+  | .ite c t e => if c.eval f then t.select f else e.select f
+
+/-- leaves of `_inner_default`, classified by routine and operand order -/
+inductive InnerLeaf where
+  /-- `np.dot(x1, x2)`: no conjugation -/
+  | dot
+  /-- `np.tensordot(x1, x2, all axes)`: no conjugation -/
+  | tensordot
+  /-- `np.vdot(x2, x1) = Σ conj(x2ᵢ) x1ᵢ` -/
+  | vdot21
+  /-- `np.vdot(x1, x2) = Σ conj(x1ᵢ) x2ᵢ` (the wrong order; representable so that a swapped
+  source is translated, not rejected) -/
+  | vdot12
+
+/-- leaves of `_norm_default` -/
+inductive NormLeaf where
+  | nrm2
+  | linalgNorm
+
+def InnerLeaf.name : InnerLeaf → String
+  | .dot => "dot" | .tensordot => "tensordot" | .vdot21 => "vdot21" | .vdot12 => "vdot12"
+
+def NormLeaf.name : NormLeaf → String
+  | .nrm2 => "nrm2" | .linalgNorm => "linalgNorm"
+
+variable {K R : Type} [OfNat K 0] [Add K] [Mul K] [OfNat R 0] [Add R] [Mul R]
+
+/-- what each leaf routine computes -/
+def InnerLeaf.val (o : IOps K R) : InnerLeaf → Nat → (Nat → K) → (Nat → K) → K
+  | .dot, n, x, y => sumTo n (fun i => x i * y i)
+  | .tensordot, n, x, y => sumTo n (fun i => x i * y i)
+  | .vdot21, n, x, y => sumTo n (fun i => o.conj (y i) * x i)
+  | .vdot12, n, x, y => sumTo n (fun i => o.conj (x i) * y i)
+
+/-- `_inner_default(x1, x2)` as the code evaluates it: select the leaf, run its routine. -/
+def innerDispatch (o : IOps K R) (t : Tree InnerLeaf) (f : Facts) (x y : Nat → K) : K :=
+  (t.select f).val o f.size x y
+
+/-- both 2-norm routines (BLAS `nrm2`, `np.linalg.norm`) on the moduli `a i = |xᵢ|` -/
+def NormLeaf.val (sqrt : R → R) : NormLeaf → Nat → (Nat → R) → R
+  | .nrm2, n, a => sqrt (sumTo n (fun i => a i * a i))
+  | .linalgNorm, n, a => sqrt (sumTo n (fun i => a i * a i))
+
+/-- `_norm_default(x)`. -/
+def normDispatch (sqrt : R → R) (t : Tree NormLeaf) (f : Facts) (a : Nat → R) : R :=
+  (t.select f).val sqrt f.size a
+
+end dispatch
+
 end OdlModel.Weighting
